@@ -661,28 +661,9 @@ int32 dtlsChkReplayWindow(ssl_t *ssl, unsigned char *seq64)
     lastSeq = ((uint32_t) ls64[2] << 24) + ((uint32_t) ls64[3] << 16) +
               ((uint32_t) ls64[4] << 8) + (uint32_t) ls64[5];
 
-    if (seq == 0)
-    {
-        /* Need to differentiate between initial, duplicate, and epoch shift */
-        if (lastSeq == 0 && ssl->rec.epoch[0] == 0 && ssl->rec.epoch[1] == 0)
-        {
-            ssl->dtlsBitmap = 0;
-            return 1; /* initial one */
-        }
-        if (dtlsCompareEpoch(ssl->rec.epoch, ssl->expectedEpoch) >= 0 &&
-            lastSeq > 0)
-        {
-            ssl->dtlsBitmap = 0;
-            return 1; /* epoch shift */
-        }
-        if (lastSeq == 0xFFFFFFF)
-        {
-            ssl->dtlsBitmap = 0;
-            return 1; /* wrapped */
-        }
-        return 0;     /* duplicate */
-    }
-
+    /* The window describes one epoch only: it is cleared by dtlsResetReplayWindow
+       whenever the expected epoch changes, so sequence number 0 needs no
+       special treatment (a cleared window has seen nothing, not even 0) */
     if (seq > lastSeq)                 /* new larger sequence number */
     {
         diff = seq - lastSeq;
@@ -693,7 +674,7 @@ int32 dtlsChkReplayWindow(ssl_t *ssl, unsigned char *seq64)
         }
         else
         {
-            ssl->lastRsn[0] = 1;       /* This packet has a "way larger" */
+            ssl->dtlsBitmap = 1;       /* This packet has a "way larger" */
         }
         Memcpy(ssl->lastRsn, seq64, 6);
         return 1;                   /* larger is good */
@@ -703,12 +684,19 @@ int32 dtlsChkReplayWindow(ssl_t *ssl, unsigned char *seq64)
     {
         return 0;                   /* too old or wrapped */
     }
-    if (ssl->dtlsBitmap & ((int32) 1 << diff))
+    if (ssl->dtlsBitmap & ((unsigned long) 1 << diff))
     {
         return 0;                                   /* already seen */
     }
     ssl->dtlsBitmap |= ((unsigned long) 1 << diff); /* mark as seen */
     return 1;                                       /* out of order but good */
+}
+
+/* Forget everything about the previous epoch: called when expectedEpoch moves */
+void dtlsResetReplayWindow(ssl_t *ssl)
+{
+    zeroSixByte(ssl->lastRsn);
+    ssl->dtlsBitmap = 0;
 }
 
 /******************************************************************************/
